@@ -279,3 +279,41 @@ def register(R, tier="quick"):
                ensures=["minv(self)", "behind_free(self)", "pos(self) < INF"], modifies=MOD, effect=drop_ids,
                canaries=[Canary("end-flag-not-cleared", "self._atend = False", "pass")],
                note="reset() returns to the first posting of the first block")
+
+    # ---- block-quality skipping (C05 / C12): only blocks whose quality bound is <= minquality are left behind
+    def skq_setup(I, **kw):
+        env = mk(I)
+        env["minquality"] = z3.Real("minquality")
+        q = env["minquality"]
+        f = flds(env["self"])
+        I.ghost["skip_ctx"] = lambda b: BQ(b) <= q
+        I.ghost["skip_blk0"] = f["blk"]
+        I.ghost["skip_i0"] = f["_i"]
+        return env
+
+    def skq_post(I, env):
+        o, o0 = env["self"], I.old_env["self"]
+        f, f0 = flds(o), flds(o0)
+        q = env["minquality"]
+        b = z3.Int(I.fresh_name("qb"))
+        upto = z3.If(to_z3(f["_atend"]), f["blk"] + 1, f["blk"])
+        return z3.And(wf_weak(I, o), f["blk"] >= f0["blk"],
+                      # every block left behind had a quality bound <= minquality ...
+                      z3.ForAll([b], z3.Implies(z3.And(f0["blk"] <= b, b < upto, z3.Or(b != f0["blk"], f["blk"] != f0["blk"],
+                                                                                         to_z3(f["_atend"]))), BQ(b) <= q)),
+                      # ... and the matcher did not move inside a block it stays in
+                      z3.Implies(z3.And(f["blk"] == f0["blk"], z3.Not(to_z3(f["_atend"]))), to_z3(f["_i"]) == to_z3(f0["_i"])),
+                      z3.Implies(z3.And(f["blk"] > f0["blk"], z3.Not(to_z3(f["_atend"]))), to_z3(f["_i"]) == 0),
+                      z3.Implies(z3.Not(to_z3(f["_atend"])), BQ(f["blk"]) > q))
+
+    R.contract("whoosh.matching.mcore:LeafMatcher.block_quality", label=K + "block_quality", props=["C12", "C05"], verify=False,
+               returns=lambda I, env: BQ(flds(env["self"])["blk"]),
+               note="assumed: the scorer's bound computed from the current block's statistics (the scorer formulas are proved "
+                    "in contracts/scoring.py)")
+    R.contract(K + "skip_to_quality", props=["C12", "C05", "C01"], setup=skq_setup, cover_hint=hint,
+               requires=["minv(self)", ACTIVE],
+               ensures=[skq_post], returns="int", modifies=MOD + ["self._ids"],
+               canaries=[Canary("skips-block-that-can-win", "lambda: block_quality() <= minquality", "lambda: block_quality() <= minquality + 1"),
+                         Canary("skip-condition-inverted", "lambda: block_quality() <= minquality", "lambda: block_quality() > minquality")],
+               note="skip_to_quality(q) only leaves behind whole blocks whose quality bound is <= q and stops at the start of "
+                    "the first block that can still beat q (or at the end)")
